@@ -57,7 +57,7 @@ def lex(src):
             i += len(t)
         elif c == '"':
             j = i + 1
-            out = []
+            out = bytearray()  # Go strings are byte sequences: \xNN and \NNN are single bytes, \uNNNN is the UTF-8 encoding
             while True:
                 if j >= n or src[j] == "\n":
                     raise GoSyntaxError("string literal not terminated")
@@ -68,35 +68,43 @@ def lex(src):
                 if ch == "\\":
                     e = src[j + 1] if j + 1 < n else ""
                     if e in SIMPLE_ESC:
-                        out.append(SIMPLE_ESC[e])
+                        out += SIMPLE_ESC[e].encode("utf-8")
                         j += 2
                     elif e == "x" and re.match(r"[0-9a-fA-F]{2}", src[j + 2 : j + 4]):
-                        out.append(chr(int(src[j + 2 : j + 4], 16)))
+                        out.append(int(src[j + 2 : j + 4], 16))
                         j += 4
                     elif e == "u" and re.match(r"[0-9a-fA-F]{4}", src[j + 2 : j + 6]):
                         cp = int(src[j + 2 : j + 6], 16)
                         if 0xD800 <= cp < 0xE000:
                             raise GoSyntaxError("escape is invalid Unicode code point")
-                        out.append(chr(cp))
+                        out += chr(cp).encode("utf-8")
                         j += 6
                     elif e == "U" and re.match(r"[0-9a-fA-F]{8}", src[j + 2 : j + 10]):
-                        out.append(chr(int(src[j + 2 : j + 10], 16)))
+                        cp = int(src[j + 2 : j + 10], 16)
+                        if cp > 0x10FFFF or 0xD800 <= cp < 0xE000:
+                            raise GoSyntaxError("escape is invalid Unicode code point")
+                        out += chr(cp).encode("utf-8")
                         j += 10
                     elif e and e in "01234567" and re.match(r"[0-7]{3}", src[j + 1 : j + 4]):
-                        out.append(chr(int(src[j + 1 : j + 4], 8)))
+                        v8 = int(src[j + 1 : j + 4], 8)
+                        if v8 > 255:
+                            raise GoSyntaxError("octal escape value > 255")
+                        out.append(v8)
                         j += 4
                     else:
                         raise GoSyntaxError("unknown escape sequence \\%s" % e)
                 else:
-                    out.append(ch)
+                    if ch == "\ufeff" and j > 0:
+                        raise GoSyntaxError("illegal byte order mark")
+                    out += ch.encode("utf-8")
                     j += 1
-            toks.append(("str", "".join(out)))
+            toks.append(("str", bytes(out).decode("latin-1")))
             i = j
         elif c == "`":
             j = src.find("`", i + 1)
             if j < 0:
                 raise GoSyntaxError("raw string literal not terminated")
-            toks.append(("str", src[i + 1 : j].replace("\r", "")))
+            toks.append(("str", src[i + 1 : j].replace("\r", "").encode("utf-8").decode("latin-1")))
             i = j + 1
         elif c == "'":
             raise GoSyntaxError("rune literals are not in the emitted subset")
@@ -566,7 +574,7 @@ def a_expr(e):
         x = float(f["value"][1])
         return ("int", str(int(x))) if x.is_integer() else ("float", repr(x))
     if n == "String":
-        return ("str", f["value"][1])
+        return ("str", f["value"][1].encode("utf-8").decode("latin-1"))  # as the bytes Go sees
     if n == "Call":
         return ("call", a_expr(f["func"]), [a_expr(a) for a in f["args"][1]])
     if n == "UnaryOp":
